@@ -1,6 +1,6 @@
 /-
   Orbiter.Json — executable model of the syntax layer of Go's encoding/json: bytes → tree.
-  The tree keeps duplicate keys in source order (consumers decide "last wins"), keeps number
+  Objects keep the last occurrence of each key (all consumers are Go maps: last wins); the tree keeps number
   literals as text, and records for every string whether its raw text equals its value (`plain`),
   because gogoproto's jsonpb looks at raw text for quoted enums and quoted numbers.
   Nothing is proved about this layer beyond totality; it is exercised by stream S1.
@@ -180,6 +180,11 @@ def matchLit (s : Src) (i : Nat) (lit : String) : Bool :=
   let bs := lit.toUTF8
   (s.extract i (i + bs.size)) == bs
 
+/-- Keep the last occurrence of every key (every consumer of a decoded object is a Go map or jsonpb's
+`map[string]RawMessage`: the last duplicate wins). -/
+def dedupLast (fields : List (String × Json)) : List (String × Json) :=
+  fields.foldl (fun acc (kv : String × Json) => (acc.filter (·.1 != kv.1)) ++ [kv]) []
+
 def maxDepth : Nat := 10000
 
 mutual
@@ -240,7 +245,7 @@ def parseFields (s : Src) (fuel depth i : Nat) (acc : List (String × Json)) : O
       | some (v, j) =>
         let j := skipWs s j
         if s.at j == some 44 then parseFields s fuel depth (skipWs s (j + 1)) ((k, v) :: acc)
-        else if s.at j == some 125 then some (.obj ((k, v) :: acc).reverse, j + 1)
+        else if s.at j == some 125 then some (.obj (dedupLast ((k, v) :: acc).reverse), j + 1)
         else none
 end
 
